@@ -138,6 +138,15 @@ def make_da(freq, dirs, E, dtype="float64", extra=None, dim_order=None):
     if dirs is not None:
         dims.append("dir")
         coords["dir"] = dirs
+        # whole-degree directions are sometimes stored as integers (np.arange(0, 360, 15)): one generated object in six
+        # carries an int64 direction coordinate (a deterministic function of the contents; VERIF_INT_DIR=0 switches it off)
+        import os
+        import zlib
+
+        dv = np.asarray(dirs)
+        if (os.environ.get("VERIF_INT_DIR", "1") != "0" and dv.dtype.kind == "f" and dv.size and np.all(dv == np.round(dv))
+                and zlib.crc32(np.ascontiguousarray(np.asarray(E, dtype="float64")).tobytes()) % 6 == 0):
+            coords["dir"] = dv.astype("int64")
     da = xr.DataArray(np.asarray(E, dtype=dtype), dims=dims, coords=coords, name="efth")
     if dim_order:
         da = da.transpose(*dim_order)
